@@ -1371,3 +1371,222 @@ func (r *rctx) recvMsg2() ([]byte, error) {
 	}
 	return m.Body, nil
 }
+
+// VH03i_many_contexts: M (5) contexts of one REQ socket all have a request
+// waiting (no peer yet). One or two of them then leave the queue, each in one
+// of three ways -- its context is closed, its send deadline runs out, it is
+// superseded by a newer Send on the same context -- at any positions of the
+// queue (every combination a path). Then a peer connects: the request of every
+// context that is still waiting is transmitted exactly once (for a superseded
+// one: the newer request), no request of a context that gave up is, every
+// blocked Send returns, and each context receives the reply to its own request
+// and no other.
+func VH03i_many_contexts() {
+	M := verif.Param("M", 5)
+	lab := "C03/many-contexts"
+	sock := vp.New("req")
+	side := vt.Listen(sock, "a")
+	type cx struct {
+		c     mangos.Context
+		g     *verif.G
+		err   error
+		tag   byte
+		gone  bool // closed or timed out
+		g2    *verif.G
+		err2  error
+	}
+	var cs []*cx
+	for i := 0; i < M; i++ {
+		c, err := sock.OpenContext()
+		verif.Assert(err == nil, lab+"/open-context")
+		if err != nil {
+			return
+		}
+		x := &cx{c: c, tag: byte('A' + i)}
+		cs = append(cs, x)
+	}
+	leave := func(x *cx, way int) {
+		switch way {
+		case 0:
+			verif.Assert(x.c.Close() == nil, lab+"/context-close")
+			x.gone = true
+		case 1:
+			x.gone = true // its deadline (set below, before sending) runs out
+		case 2:
+			x.tag += 32 // 'a'..: the newer request
+			x.g2 = verif.Go("send-again", func() { x.err2 = x.c.Send([]byte{x.tag}) })
+		}
+	}
+	a := verif.Choice("first", M)
+	wayA := verif.Choice("way-first", 3)
+	b := verif.Choice("second", M+1) - 1 // -1: only one leaves
+	wayB := 0
+	if b >= 0 {
+		verif.Assume(b != a)
+		wayB = verif.Choice("way-second", 3)
+	}
+	if wayA == 1 {
+		verif.Assert(cs[a].c.SetOption(mangos.OptionSendDeadline, time.Second) == nil, lab+"/set-deadline")
+	}
+	if b >= 0 && wayB == 1 {
+		verif.Assert(cs[b].c.SetOption(mangos.OptionSendDeadline, time.Second) == nil, lab+"/set-deadline")
+	}
+	for _, x := range cs {
+		x := x
+		x.g = verif.Go("send", func() { x.err = x.c.Send([]byte{x.tag}) })
+		verif.Quiesce()
+		verif.Assert(!x.g.Done(), lab+"/send-returned-although-nobody-could-take-the-request")
+	}
+	leave(cs[a], wayA)
+	verif.Quiesce()
+	if b >= 0 {
+		leave(cs[b], wayB)
+		verif.Quiesce()
+	}
+	if wayA == 1 || (b >= 0 && wayB == 1) {
+		for i := 0; i < 2 && verif.PendingTimers() > 0; i++ {
+			verif.FireTimer()
+		}
+	}
+	for _, x := range cs {
+		if x.gone {
+			verif.Assert(x.g.Done() && x.err != nil, lab+"/send-of-a-context-that-gave-up-did-not-fail")
+		}
+	}
+	p := side.Peer("p0")
+	// the peer takes one request at a time: let everything drain
+	for i := 0; i < 2*M; i++ {
+		verif.Quiesce()
+	}
+	want := 0
+	for _, x := range cs {
+		if x.gone {
+			continue
+		}
+		want++
+		verif.Assert(x.g.Done() && x.err == nil, lab+"/send-still-blocked-although-a-peer-takes-requests")
+		if x.g2 != nil {
+			verif.Assert(x.g2.Done() && x.err2 == nil, lab+"/newer-send-still-blocked-although-a-peer-takes-requests")
+		}
+	}
+	seen := map[byte][]byte{}
+	for _, r := range p.Sent {
+		verif.Assert(len(r.H) == 4 && len(r.B) == 1, lab+"/request-frame-shape")
+		if len(r.H) != 4 || len(r.B) != 1 {
+			continue
+		}
+		_, dup := seen[r.B[0]]
+		verif.Assert(!dup, lab+"/request-transmitted-twice")
+		seen[r.B[0]] = r.H
+	}
+	for _, x := range cs {
+		_, ok := seen[x.tag]
+		if x.gone {
+			verif.Assert(!ok, lab+"/request-of-a-context-that-gave-up-transmitted")
+		} else {
+			verif.Assert(ok, lab+"/waiting-request-never-transmitted-after-another-context-left-the-queue")
+		}
+	}
+	verif.Assert(len(p.Sent) == want, lab+"/unexpected-number-of-requests-on-the-wire")
+	// replies, in reverse order
+	for i := len(cs) - 1; i >= 0; i-- {
+		x := cs[i]
+		h, ok := seen[x.tag]
+		if x.gone || !ok {
+			continue
+		}
+		p.Deliver([]byte{h[0], h[1], h[2], h[3], x.tag, 'r'})
+	}
+	verif.Quiesce()
+	for _, x := range cs {
+		if x.gone {
+			continue
+		}
+		if _, ok := seen[x.tag]; !ok {
+			continue
+		}
+		b, err := x.c.Recv()
+		verif.Assert(err == nil && len(b) == 2 && b[0] == x.tag, lab+"/context-did-not-receive-the-reply-to-its-own-request")
+	}
+	verif.Reach("many-contexts-checked")
+	sock.Close()
+}
+
+// VH04g_many_peers: a REQ socket with P (4) peers. After 0..3 complete
+// exchanges (which shuffle the order in which peers are used) a request is
+// sent; then the connection carrying it is lost, again and again, until a
+// single peer is left. After every loss the request is re-sent at once to a
+// peer that is still connected -- never to a detached one, and no connected
+// peer is ever forgotten -- so that the last survivor, whichever it is, ends
+// up with the request and its reply completes the exchange.
+func VH04g_many_peers() {
+	P := verif.Param("P", 4)
+	lab := "C04/many-peers"
+	sock := vp.New("req")
+	verif.Assert(sock.SetOption(mangos.OptionRetryTime, time.Minute) == nil, lab+"/set-retry")
+	side := vt.Listen(sock, "a")
+	var pipes []*vt.Pipe
+	for i := 0; i < P; i++ {
+		pipes = append(pipes, side.Peer("p"+string(rune('0'+i))))
+	}
+	holderOf := func(tag byte) *vt.Pipe {
+		var h *vt.Pipe
+		for _, p := range pipes {
+			if n := len(p.Sent); n > 0 && len(p.Sent[n-1].B) == 2 && p.Sent[n-1].B[0] == tag && !p.Closed {
+				h = p
+			}
+		}
+		return h
+	}
+	warm := verif.Choice("warm-up", 4)
+	for i := 0; i < warm; i++ {
+		tag := byte('a' + i)
+		verif.Assert(sock.Send([]byte{tag, 0}) == nil, lab+"/warm-up-send")
+		verif.Quiesce()
+		h := holderOf(tag)
+		verif.Assert(h != nil, lab+"/warm-up-request-not-transmitted")
+		if h == nil {
+			return
+		}
+		x := h.Sent[len(h.Sent)-1].H
+		h.Deliver([]byte{x[0], x[1], x[2], x[3], tag})
+		verif.Quiesce()
+		b, err := sock.Recv()
+		verif.Assert(err == nil && len(b) == 1 && b[0] == tag, lab+"/warm-up-reply")
+	}
+	body := []byte{'Q', verif.Byte("payload")}
+	verif.Assert(sock.Send(body) == nil, lab+"/send")
+	verif.Quiesce()
+	var id []byte
+	for alive := P; alive > 1; alive-- {
+		h := holderOf('Q')
+		verif.Assert(h != nil, lab+"/request-not-with-any-connected-peer-although-peers-are-connected")
+		if h == nil {
+			return
+		}
+		r := h.Sent[len(h.Sent)-1]
+		if id == nil {
+			id = append([]byte{}, r.H...)
+		}
+		verif.Assert(verif.BytesEq(r.H, id) && verif.BytesEq(r.B, body), lab+"/retransmission-differs-from-the-request")
+		h.Drop()
+		verif.Quiesce()
+	}
+	h := holderOf('Q')
+	verif.Assert(h != nil, lab+"/last-surviving-peer-never-got-the-request")
+	if h == nil {
+		return
+	}
+	for _, p := range pipes {
+		if p.Closed {
+			continue
+		}
+		verif.Assert(p == h, lab+"/more-than-one-survivor")
+	}
+	h.Deliver([]byte{id[0], id[1], id[2], id[3], 'R'})
+	verif.Quiesce()
+	b, err := sock.Recv()
+	verif.Assert(err == nil && len(b) == 1 && b[0] == 'R', lab+"/reply-of-the-last-survivor-not-delivered")
+	verif.Reach("many-peers-checked")
+	sock.Close()
+}
